@@ -593,6 +593,28 @@ fn final_binding(transcript: &Transcript, st: &RangeStatement<RistrettoPoint>, p
     Some(rng.next_u64())
 }
 
+/// the state in which the documented protocol leaves the CALLER'S transcript after a verification (everything up to and including the
+/// final challenge and the three responses), observed as 16 challenge bytes under a probe label — what continues on that transcript
+/// (a second proof, an application challenge) depends on it
+pub fn final_probe(transcript: &Transcript, st: &RangeStatement<RistrettoPoint>, proof_bytes: &[u8]) -> Option<String> {
+    let x = st.generators.extension_degree() as usize;
+    if proof_bytes.len() < 1 + 32 * (x + 5) || (proof_bytes.len() - 1) % 32 != 0 {
+        return None;
+    }
+    let elems: Vec<[u8; 32]> = proof_bytes[1..].chunks(32).map(|c| c.try_into().unwrap()).collect();
+    let s = stages(transcript, st, proof_bytes)?;
+    let mut t = s.states.last().unwrap().clone();
+    challenge(&mut t, b"e")?;
+    t.append_message(b"r1", &elems[x + 3]);
+    t.append_message(b"s1", &elems[x + 4]);
+    for k in 0..x {
+        t.append_message(b"d1", &elems[k]);
+    }
+    let mut b = [0u8; 16];
+    t.challenge_bytes(b"replay-probe", &mut b);
+    Some(b.iter().map(|v| format!("{:02x}", v)).collect())
+}
+
 /// C08: weights recomputed from PUBLIC data under a menu of weakened derivations. For each derivation: member 0's first response is
 /// shifted by 1, the weights are computed, member 1's first response is shifted by -w_0/w_1, the weights are computed AGAIN and must not
 /// have moved (otherwise that derivation does bind the responses and the attack is not available), and the pair is submitted to the
